@@ -131,11 +131,9 @@ class TlsExtensionBase(ParsableBase):
 
         # the class sees its own extension only: a body that declares more than the extension holds is short of
         # data, it must not be completed from the extensions that follow
-        confined_parser = ParserBinary(parsable[:parser.parsed_length + parser['extension_length']])
-        cls._parse_type(confined_parser, 'extension_type')
-        confined_parser.parse_numeric('extension_length', 2)
+        parser._parsable = parsable[:parser.parsed_length + parser['extension_length']]  # pylint: disable=protected-access
 
-        return confined_parser
+        return parser
 
     def _compose_header(self, payload_length):
         header_composer = ComposerBinary()
